@@ -94,6 +94,11 @@ func (i *Interpreter) Interpret(statements []ast.Stmt, isRepl bool) []interface{
 func (i *Interpreter) eval(expr ast.Expr, env *environment.Environment, isRepl bool) (interface{}, *ControlFlowSignal) {
 	// fmt.Printf("%T\n", expr)
 	utils.VerifEmit("eval", expr)
+	// A runtime error stops the program: once one has been reported nothing else is evaluated.
+	// (Loops, call arguments, literals and function bodies used to carry on after the report.)
+	if utils.HadRuntimeError {
+		return nil, &ControlFlowSignal{Type: ControlFlowNone, LineNumber: 0}
+	}
 	switch e := expr.(type) {
 	case *ast.PropertyAssignment:
 		objectValue, signal := i.eval(e.Object, env, isRepl)
@@ -290,7 +295,10 @@ func (i *Interpreter) eval(expr ast.Expr, env *environment.Environment, isRepl b
 			arguments = append(arguments, argValue)
 		}
 
-		// Step 3: Call the function and return its result
+		// Step 3: Call the function and return its result (unless an argument failed)
+		if utils.HadRuntimeError {
+			return nil, &ControlFlowSignal{Type: ControlFlowNone, LineNumber: 0}
+		}
 		utils.VerifEmit("call", function, arguments)
 		result, err := function.Call(i, arguments)
 		if err != nil {
